@@ -89,7 +89,10 @@ def generate(seed, tier, index):
     # drivers commonly react to a switch change by updating the property's state (which publishes the vector again):
     # whatever such a handler publishes must satisfy the rule too
     handlers = [v["name"] for v in vecs if rng.random() < 0.5]
-    return {"devices": [spec], "nclients": nclients, "steps": steps, "net": net, "seed": rng.randrange(1 << 30), "state_handlers": handlers}
+    # ... and a driver may veto a client's write (it will confirm later, from the hardware): a vetoed write changes nothing
+    vetoes = [[v["name"], e["name"]] for v in vecs for e in v["elements"].values() if rng.random() < 0.15]
+    return {"devices": [spec], "nclients": nclients, "steps": steps, "net": net, "seed": rng.randrange(1 << 30), "state_handlers": handlers,
+            "veto_handlers": vetoes}
 
 
 def execute(scen):
@@ -102,7 +105,7 @@ def execute(scen):
     transitions = set()
     applied_ops = 0
     with Sim(scen["seed"], cfg, PoolConfig()) as sim:
-        from indi.device.events import Change, on
+        from indi.device.events import Change, Write, on
 
         def extra(spec_):
             def build(dct):
@@ -121,6 +124,15 @@ def execute(scen):
 
                     handler.__name__ = f"on_change_{vattr}"
                     out[f"on_change_{vattr}"] = on(srcs, Change)(handler)
+                for vattr, vdef in grp.vectors.items():
+                    vsrcs = [edef for edef in vdef.elements.values() if [vdef.name, edef.name] in scen.get("veto_handlers", [])]
+                    if vsrcs:
+                        def veto(self, event):
+                            probes["write_vetoed"] = probes.get("write_vetoed", 0) + 1
+                            event.prevent_default = True
+
+                        veto.__name__ = f"veto_{vattr}"
+                        out[f"veto_{vattr}"] = on(vsrcs, Write)(veto)
                 return out
             return build
 
@@ -179,12 +191,23 @@ def execute(scen):
             node.client.process_message = spy
         pre_ok_seen = {}
 
+        initial_ok = dict(pre_ok)
+        vetoed = {tuple(x) for x in scen.get("veto_handlers", [])}
+
+        def quiescent_rule_check(where):
+            for vn, vs_ in vspecs.items():
+                if initial_ok[vn] and not rule_ok(vs_["rule"], list(cur(vn).values())):
+                    viol.append({"clause": "C09.oneof" if vs_["rule"] == "OneOfMany" else "C09.atmost",
+                                 "detail": f"{where}: driver state of {vn} ({vs_['rule']}) is {cur(vn)} although it started from a configuration satisfying the rule", "facts": dict(facts, rule=vs_["rule"])})
+                    return
+
         for st in scen["steps"]:
             if viol:
                 break
             op = st["op"]
             if op == "settle":
                 sim.settle()
+                quiescent_rule_check("at quiescence")
                 continue
             if op == "gap":
                 sim.gap(st)
@@ -221,6 +244,11 @@ def execute(scen):
             transitions.add((rule, n, key, op, st.get("el"), st.get("value")))
             f2 = dict(facts, rule=rule, op=op)
             ctx = f"{op} {st.get('el') or st.get('els')}={st.get('value')!r} on {vname} ({rule}) {before} -> {after}"
+            if op == "d_set_value" and (vname, st["el"]) in vetoed:
+                if after != before and not res.error:
+                    viol.append({"clause": "C09.oneof" if rule == "OneOfMany" else ("C09.atmost" if rule == "AtMostOne" else "C09.any"),
+                                 "detail": f"a vetoed write changed the vector; {ctx}", "facts": f2})
+                continue
             single_on = (op in ("d_assign", "d_set_value") and st["value"] == "On") or (op == "d_bool" and st["value"]) or op == "d_select"
             if res.error:
                 if single_on or op == "d_selects":
@@ -254,6 +282,8 @@ def execute(scen):
                                  "detail": f"rule model predicts {exp}; {ctx}", "facts": f2})
         if not viol:
             sim.settle()
+            quiescent_rule_check("at the end")
+        if not viol:
             esc = [e for e in stack.escaped()]
             if esc or watchdog.S.tripped:
                 viol.append({"clause": "C09.published", "detail": f"stack broke: {esc} {watchdog.S.tripped}", "facts": facts})
